@@ -273,7 +273,22 @@ def check_C15(tier, replay=None):
     return rc
 
 
-CHECKS = {"C11": check_C11, "C06": check_C06, "C15": check_C15}
+# ------------------------------------------------------------------------- C02
+
+MEMBER_DEVS = ("D08", "D09", "D10", "D11", "D12", "D13", "D23a")
+
+
+def check_C02(tier, replay=None):
+    R = Result("C02", tier)
+    runs = [("MC_C02_" + s, {"Slice": '"%s"' % s}) for s in ("builtins", "positions", "attrs", "pairs")]
+    std_flow(R, "MC_C02", runs, "Trace_Out", {"P": '"C02"'}, MEMBER_DEVS, ["Agreement", "Emit"])
+    R.extra["exhaustive"] = True
+    return finish(R, "model_checking",
+                  "every type shape of the bounded space (27 builtins x min x max; named complex/simple type of the same and of another namespace, ref, builtin x min x max x 5 positions x occurrence of the enclosing sequence x helper order; attributes; member pairs) is one TLC state on which operational walk = declarative members is checked; each is concretised into a two-file schema set, generated by the real code, and the abstracted structs are judged by TLC against Schema!ExpFields; distinct by shape",
+                  ["concretiser, syn-based abstraction (harness/src/absout.rs)", "TLC", "vocabulary tables of MC_C02 (xml / PascalCase / snake_case spellings)"])
+
+
+CHECKS = {"C11": check_C11, "C06": check_C06, "C15": check_C15, "C02": check_C02}
 
 
 def main(argv):
